@@ -124,32 +124,68 @@ def check(ctx):
                         ctx.undecided("C04-R2", n, rel, q, desc, "atom argument not positional")
                         continue
                     _decide_endpoint(ctx, a, n, node, defs, rel, q, desc)
-        # R6
-        for n in walk_no_nested(fn):
-            if isinstance(n, ast.BoolOp) and isinstance(n.op, ast.Or):
-                first = n.values[0]
-                txt = src(first)
-                if any(f in txt for f in ("resSeq", "serial", ".order", "segment_id")):
-                    ctx.violated("C04-R6", n, rel, q, "`%s`" % src(n)[:60],
-                                 "a stored value of 0 is falsy and is silently replaced by the default")
         need = {"Topology.copy": {"add_chain", "add_residue", "add_atom", "add_bond"},
                 "Topology.join": {"add_chain", "add_residue", "add_atom", "add_bond"},
                 "_topology_from_subset": {"add_chain", "add_residue", "add_atom", "add_bond"},
                 "PDBTrajectoryFile._read_models": {"add_chain", "add_residue", "add_atom"}}[q]
         if not need <= seen_kinds:
             raise AnalysisError("%s no longer calls %s" % (q, sorted(need - seen_kinds)))
-    # R6 holds-instances: the preserved-integer reads that are not defaulted with `or`
-    for (rel, q, _) in REBUILDERS:
+    # R6: rebuilders and the readers of the serialised carriers
+    r6 = [(rel, q) for (rel, q, _) in REBUILDERS] + [(H5, "HDF5TrajectoryFile.topology.getter"), (TOP, "Topology.from_dataframe"),
+                                                      (TOP, "Topology.to_dataframe"), (H5, "HDF5TrajectoryFile.topology.setter")]
+    for (rel, q) in r6:
         fn = ctx.py.func(rel, q)
-        bad = [o for o in ctx.obs if o.rule == "C04-R6" and o.func == q]
-        if not bad:
-            ctx.holds("C04-R6", fn, rel, q, "no `or` default on resSeq/serial/order", "")
+        if _falsy_zero(ctx, rel, q, fn) == 0:
+            ctx.holds("C04-R6", fn, rel, q, "no truth test / `or` default on resSeq/serial/order", "")
 
     _dataframe(ctx)
     _hdf5(ctx)
     _r3(ctx)
     _r5(ctx)
     _r7(ctx)
+
+
+PRESERVED_INTS = ("resSeq", "serial", "order", "resseq")
+
+
+def _falsy_zero(ctx, rel, q, fn):
+    """`x or d` / `if not x` / `if x` on a value that carries a preserved integer: 0 is a legal value."""
+    cfg = CFG(fn)
+    defs = Defs(cfg)
+    hits = 0
+    for n in cfg.nodes():
+        for e in cfg.own_exprs(n):
+            for c in ast.walk(e):
+                cand = None
+                if isinstance(c, ast.BoolOp) and isinstance(c.op, ast.Or) and isinstance(c.values[0], (ast.Name, ast.Attribute, ast.Subscript, ast.Call)):
+                    cand = c.values[0]
+                elif isinstance(c, ast.UnaryOp) and isinstance(c.op, ast.Not) and isinstance(c.operand, (ast.Name, ast.Attribute, ast.Subscript, ast.Call)):
+                    cand = c.operand
+                elif isinstance(c, ast.IfExp) and isinstance(c.test, (ast.Name, ast.Attribute, ast.Subscript)):
+                    cand = c.test
+                elif cfg.kind[n] == "test" and c is cfg.stmt[n].test and isinstance(c, (ast.Name, ast.Attribute, ast.Subscript)):
+                    cand = c
+                if cand is None:
+                    continue
+                ds = deps(cand, n, defs)
+                txt = " ".join(sorted(ds)) + " " + src(cand)
+                # string keys such as residue_dict.get("resSeq") / atom["serial"]
+                for k in ast.walk(cand):
+                    if isinstance(k, ast.Constant) and isinstance(k.value, str):
+                        txt += " " + k.value
+                if isinstance(cand, ast.Name):
+                    for df in defs.reaching(n, cand.id):
+                        if df.value is not None:
+                            for k in ast.walk(df.value):
+                                if isinstance(k, ast.Constant) and isinstance(k.value, str):
+                                    txt += " " + k.value
+                import re as _re
+                toks = set(_re.split(r"[^A-Za-z0-9_]+", txt))
+                if any(f in toks for f in PRESERVED_INTS):
+                    hits += 1
+                    ctx.violated("C04-R6", c, rel, q, "`%s`" % src(c)[:60],
+                                 "truth-testing a preserved integer: a stored value of 0 is falsy and is silently replaced / dropped")
+    return hits
 
 
 def _def_value(defs, node, name):
@@ -233,6 +269,19 @@ def _dataframe(ctx):
                 if isinstance(k, int):
                     idx.add(k)
         ctx.decide(idx == {0, 1, 2, 3}, "C04-R1", ffn, TOP, fq, "bond columns read", "0..3", "from_dataframe reads bond columns %s" % sorted(idx))
+    # grouping: a new chain forces a new residue; residues split on resSeq and resName; chains split on chainID
+    mod = None
+    for n in walk_no_nested(ffn):
+        if isinstance(n, ast.If):
+            body_calls = [call_name(c) or "" for st in n.body for c in ast.walk(st) if isinstance(c, ast.Call)]
+            t = src(n.test)
+            if any(b.endswith(".add_residue") for b in body_calls):
+                ok = "resSeq" in t and "resName" in t and ("n_atoms == 0" in t or "chainID" in t or "n_residues == 0" in t)
+                ctx.decide(ok, "C04-R1", n, TOP, fq, "new residue on resSeq / resName / new chain", t[:80],
+                           "the residue-boundary test `%s` does not start a new residue when a new chain starts (or ignores resSeq/resName): "
+                           "atoms of the next chain are appended to the previous chain's residue" % t[:100])
+            if any(b.endswith(".add_chain") for b in body_calls):
+                ctx.decide("chainID" in t, "C04-R1", n, TOP, fq, "new chain on chainID change", t[:60], "chains are not split on the chainID column")
     # from_dataframe bonds re-pointed through out.atom(i)
     cfg = CFG(ffn)
     defs = Defs(cfg)
@@ -270,8 +319,11 @@ def _hdf5(ctx):
             k = const(n.slice)
             if isinstance(k, str) and b in ("chain_dict", "residue_dict", "atom_dict"):
                 rkeys[b.split("_")[0]].add(k)
-        if isinstance(n, ast.Call) and call_name(n) == "operator.itemgetter" and n.args:
-            pass
+        if isinstance(n, ast.Call) and isinstance(n.func, ast.Attribute) and n.func.attr in ("get", "pop") and n.args:
+            b = dotted(n.func.value)
+            k = const(n.args[0])
+            if isinstance(k, str) and b in ("chain_dict", "residue_dict", "atom_dict"):
+                rkeys[b.split("_")[0]].add(k)
     for lvl in ("chain", "residue", "atom"):
         for k in sorted(rkeys[lvl]):
             ctx.decide(k in levels[lvl], "C04-R1", gfn, H5, gq, "%s key %r" % (lvl, k), "written by the setter",
